@@ -6,6 +6,7 @@ import ast
 from ..algebra import NC, ToNC
 from ..report import AnalysisError
 from ..srcmodel import norm
+from ..amatch import AM
 from ..state import StateAnalysis, attr_reads, attr_writes, self_attr
 from ..vocab import VocabDA, asserted_membership, compared_literals, doc_bullets, option_attr, test_literals
 
@@ -235,28 +236,37 @@ def rule_c(ctx, sa, fa, acc_f, ls):
     ctx.ob(R, se.qname, "self.DT is the transpose of self.D", D_nc is not None and DT_nc is not None and DT_nc == D_nc.T(), f"D={D_nc!r} DT={DT_nc!r}", se.node)
     want_D = NC.sym(f"[{(jac or ['jacobian'])[0]}[self.reduced_system_slice, self.flux_slice]]")
     ctx.ob(R, se.qname, "self.D is the (reduced rows, flux columns) block of the Jacobian", D_nc == want_D, f"D={D_nc!r}", se.node)
-    schur_s = ToNC(env=env, symbolize=sym_slices)(env["schur_complement"]) if "schur_complement" in env else None
-    Dl = conv(env["D"]) if "D" in env else None
-    Jl = ToNC(env={}, symbolize=sym_slices)(env["J_inv"]) if "J_inv" in env else None
-    ctx.ob(R, se.qname, "setup Schur complement is D . J^-1 . D^T", schur_s is not None and Dl is not None and Jl is not None and schur_s == Dl @ Jl @ Dl.T(), repr(schur_s), se.node)
-    ctx.ob(R, se.qname, "reduced Jacobian = constant sub-block + Schur complement", norm(attrs.get("reduced_jacobian", ast.Constant(0))) == "self.jacobian_subblock + schur_complement", norm(attrs.get("reduced_jacobian", ast.Constant(0))), se.node)
-    # eliminate_flux
+    am_se = AM(se)
+    jn = (jac or ["jacobian"])[0]
+    se_ok = [am_se.has(se.node, f"J_inv = sps.diags(1.0 / {jn}.diagonal()[self.flux_slice])") is not None,
+             am_se.has(se.node, "self.D = D.copy()") is not None,
+             am_se.has(se.node, "self.reduced_jacobian = self.jacobian_subblock + schur_complement") is not None]
+    s_J, s_D, s_S = (am_se.actual(k) or k for k in ("J_inv", "D", "schur_complement"))
+    schur_s = ToNC(env={k: v for k, v in env.items() if k not in (s_J, s_D)}, symbolize=sym_slices)(env[s_S]) if s_S in env else None
+    ctx.ob(R, se.qname, "setup Schur complement is D . J^-1 . D^T (D the block cached as self.D, J^-1 the inverse flux diagonal)", all(se_ok) and schur_s is not None
+           and schur_s == NC.sym(s_D) @ NC.sym(s_J) @ NC.sym(s_D).T(), f"{se_ok} {schur_s!r}", se.node)
+    ctx.ob(R, se.qname, "reduced Jacobian = constant sub-block + Schur complement", se_ok[2], norm(attrs.get("reduced_jacobian", ast.Constant(0))), se.node)
+    # eliminate_flux (local names are located by shape, not by spelling)
     env = env_of(ef)
     pj, pr = ef.params[1], ef.params[2]
     conv = ToNC(env={}, symbolize=sym_slices)
-    J = NC.sym("J_inv")
+    am = AM(ef)
+    j_ok = am.has(ef.node, f"J_inv = sps.diags(1.0 / {pj}.diagonal()[self.flux_slice])") is not None
+    rj_ok = am.has(ef.node, "reduced_jacobian = self.jacobian_subblock + schur_complement") is not None
+    rr_ok = am.has(ef.node, f"reduced_residual = {pr}[self.reduced_system_slice].copy()") is not None
+    n_J, n_S, n_RJ, n_RR = (am.actual(k) or k for k in ("J_inv", "schur_complement", "reduced_jacobian", "reduced_residual"))
+    J = NC.sym(n_J)
     D, DT = NC.sym("self.D"), NC.sym("self.DT")
-    schur = ToNC(env={}, symbolize=sym_slices)(env["schur_complement"]) if "schur_complement" in env else None
+    schur = ToNC(env={}, symbolize=sym_slices)(env[n_S]) if n_S in env else None
     ctx.ob(R, ef.qname, "Schur complement is self.D . J^-1 . self.DT", schur == D @ J @ DT, repr(schur), ef.node)
-    ctx.ob(R, ef.qname, "J^-1 is the inverse of the diagonal of the flux block", "J_inv" in env and norm(env["J_inv"]) == f"sps.diags(1.0 / {pj}.diagonal()[self.flux_slice])", norm(env.get("J_inv", ast.Constant(0))), ef.node)
-    ctx.ob(R, ef.qname, "reduced Jacobian = constant sub-block + Schur complement", "reduced_jacobian" in env and norm(env["reduced_jacobian"]) == "self.jacobian_subblock + schur_complement", norm(env.get("reduced_jacobian", ast.Constant(0))), ef.node)
-    red0 = env.get("reduced_residual")
-    aug = [st for st in ef.node.body if isinstance(st, ast.AugAssign) and norm(st.target) == "reduced_residual"]
-    ok = red0 is not None and norm(red0) == f"{pr}[self.reduced_system_slice].copy()" and len(aug) == 1 and isinstance(aug[0].op, ast.Sub) \
+    ctx.ob(R, ef.qname, "J^-1 is the inverse of the diagonal of the flux block", j_ok, norm(env.get(n_J, ast.Constant(0))), ef.node)
+    ctx.ob(R, ef.qname, "reduced Jacobian = constant sub-block + Schur complement", rj_ok, norm(env.get(n_RJ, ast.Constant(0))), ef.node)
+    aug = [st for st in ef.node.body if isinstance(st, ast.AugAssign) and norm(st.target) == n_RR]
+    ok = rr_ok and len(aug) == 1 and isinstance(aug[0].op, ast.Sub) \
         and conv(aug[0].value) == D @ J @ NC.sym(f"[{pr}[self.flux_slice]]")
-    ctx.ob(R, ef.qname, "reduced rhs = r[reduced] - D . J^-1 . r[flux]", ok, f"{norm(red0) if red0 is not None else None}; {[norm(a) for a in aug]}", ef.node)
+    ctx.ob(R, ef.qname, "reduced rhs = r[reduced] - D . J^-1 . r[flux]", ok, f"{[norm(a) for a in aug]}", ef.node)
     rets = [norm(r.value) for r in ast.walk(ef.node) if isinstance(r, ast.Return)]
-    ctx.ob(R, ef.qname, "returns (reduced Jacobian, reduced rhs, J^-1)", rets == ["(reduced_jacobian, reduced_residual, J_inv)"], str(rets), ef.node)
+    ctx.ob(R, ef.qname, "returns (reduced Jacobian, reduced rhs, J^-1)", rets == [f"({n_RJ}, {n_RR}, {n_J})"], str(rets), ef.node)
     # compute_flux_update
     env = env_of(cf)
     ps, prr = cf.params[1], cf.params[2]
@@ -264,7 +274,10 @@ def rule_c(ctx, sa, fa, acc_f, ls):
     got = ToNC(env=env, symbolize=sym_slices)(rets[0]) if rets else None
     want = NC.sym("self.matrix_flux_inv") @ (NC.sym(f"[{prr}[self.flux_slice]]") + DT @ NC.sym(f"[{ps}[self.reduced_system_slice]]"))
     ctx.ob(R, cf.qname, "flux update = J^-1 . (r[flux] + DT . x[reduced])", got == want, repr(got), cf.node)
-    # linear_solve branches
+    # linear_solve branches; the solution vector is the name every return of linear_solve hands back
+    ret_names = {norm(r.value.elts[0] if isinstance(r.value, ast.Tuple) else r.value) for r in ast.walk(ls.node) if isinstance(r, ast.Return) and r.value is not None}
+    ctx.need(len(ret_names) == 1 and next(iter(ret_names)).isidentifier(), f"{ls.qname}: returns are not a single solution name ({sorted(ret_names)})")
+    SOL = next(iter(ret_names))
     for lit in acc_f:
         lb = branch_body(ls.node, fa, lit)
         if lb is None:
@@ -287,13 +300,13 @@ def rule_c(ctx, sa, fa, acc_f, ls):
                f"eliminate_flux{args_e} compute_flux_update{args_c}", ls.node)
         solves = [st for st in lb if isinstance(st, ast.Assign) and isinstance(st.value, ast.Call) and norm(st.value.func) == "self.linear_solver.solve"]
         if lit == "pressure" or any("fully_reduced" in norm(s) for s in solves):
-            ok = len(solves) == 1 and norm(solves[0].targets[0]) == "solution[self.fully_reduced_system_indices_full]" and norm(solves[0].value.args[0]) == "self.fully_reduced_rhs"
+            ok = len(solves) == 1 and norm(solves[0].targets[0]) == f"{SOL}[self.fully_reduced_system_indices_full]" and norm(solves[0].value.args[0]) == "self.fully_reduced_rhs"
             ctx.ob(R, ls.qname, f"formulation {lit!r}: reduced solution is scattered through fully_reduced_system_indices_full", ok, str([norm(s)[:90] for s in solves]), ls.node)
         else:
-            ok = len(solves) == 1 and norm(solves[0].targets[0]) == "solution[self.reduced_system_slice]" and norm(solves[0].value.args[0]) == "self.reduced_rhs"
+            ok = len(solves) == 1 and norm(solves[0].targets[0]) == f"{SOL}[self.reduced_system_slice]" and norm(solves[0].value.args[0]) == "self.reduced_rhs"
             ctx.ob(R, ls.qname, f"formulation {lit!r}: reduced solution is stored in the reduced-system slice", ok, str([norm(s)[:90] for s in solves]), ls.node)
     # the solution vector is only written through the pieces above
-    allowed = {"solution[self.flux_slice]", "solution[self.reduced_system_slice]", "solution[self.fully_reduced_system_indices_full]", "solution[0:-1]", "solution[-1]"}
+    allowed = {f"{SOL}[self.flux_slice]", f"{SOL}[self.reduced_system_slice]", f"{SOL}[self.fully_reduced_system_indices_full]", f"{SOL}[0:-1]", f"{SOL}[-1]"}
     for lit in acc_f:
         lb = branch_body(ls.node, fa, lit)
         if lb is None:
@@ -305,15 +318,19 @@ def rule_c(ctx, sa, fa, acc_f, ls):
                     b = t
                     while isinstance(b, (ast.Subscript, ast.Attribute)):
                         b = b.value
-                    if isinstance(t, (ast.Subscript, ast.Attribute)) and isinstance(b, ast.Name) and b.id == "solution":
+                    if isinstance(t, (ast.Subscript, ast.Attribute)) and isinstance(b, ast.Name) and b.id == SOL:
                         ctx.ob(R, ls.qname, f"formulation {lit!r}: store `{norm(t)[:60]}` writes the solution through the solve / back-substitution index maps",
                                norm(t) in allowed, f"`{norm(s_)[:90]}` modifies the solution vector outside the elimination / back-substitution pieces built at setup", s_)
     sl = m.method(base, "setup_eliminate_lagrange_multiplier")
-    pair = [norm(st.value) for st in sl.node.body if isinstance(st, ast.Assign) and norm(st.targets[0]) == "self.fully_reduced_system_indices_full"]
-    ctx.ob(R, sl.qname, "scatter map = reduced-system indices gathered by the fully-reduced index map", pair == ["reduced_system_indices[self.fully_reduced_system_indices]"], str(pair), sl.node)
+    am_sl = AM(sl)
+    p_ok = am_sl.has(sl.node, "self.fully_reduced_system_indices_full = reduced_system_indices[self.fully_reduced_system_indices]") is not None \
+        and am_sl.has(sl.node, "reduced_system_indices = np.concatenate([self.pressure_indices, self.lagrange_multiplier_indices])") is not None
+    ctx.ob(R, sl.qname, "scatter map = reduced-system indices (pressure, then multiplier) gathered by the fully-reduced index map", p_ok, str(am_sl.show()), sl.node)
     el = m.method(base, "eliminate_lagrange_multiplier")
-    gath = [norm(st.value) for st in el.node.body if isinstance(st, ast.Assign) and norm(st.targets[0]) == "fully_reduced_residual"]
-    ctx.ob(R, el.qname, "fully reduced rhs gathers with fully_reduced_system_indices", gath == [f"{el.params[2]}[self.fully_reduced_system_indices].copy()"], str(gath), el.node)
+    am_el = AM(el)
+    g_ok = am_el.has(el.node, f"fully_reduced_residual = {el.params[2]}[self.fully_reduced_system_indices].copy()") is not None \
+        and am_el.has(el.node, "return (self.fully_reduced_jacobian, fully_reduced_residual)") is not None
+    ctx.ob(R, el.qname, "fully reduced rhs gathers with fully_reduced_system_indices and is what is returned", g_ok, str(am_el.show()), el.node)
     dele = [norm(st.value) for st in el.node.body if isinstance(st, ast.Assign) and norm(st.targets[0]) == "self.fully_reduced_jacobian.data[:]"]
     ctx.ob(R, el.qname, "removed matrix entries are those identified at setup (rm_indices)", len(dele) == 1 and dele[0].endswith(", self.rm_indices)"), str(dele), el.node)
     ctx.floor(R, 4)
@@ -325,6 +342,11 @@ def rule_d(ctx, sa, fa, ta, acc_f, acc_t, setup, ls):
              "the `if setup_linear_solver:` block of the branch definitely calls a set-up method that binds self.linear_solver (and "
              "self.solver_options) before self.linear_solver.solve")
     n = 0
+    FLAG_FORMS = ("not reuse_solver or not hasattr(self, 'linear_solver')", "not (reuse_solver and hasattr(self, 'linear_solver'))")
+    flag = [s for s in ast.walk(ls.node) if isinstance(s, ast.Assign) and isinstance(s.targets[0], ast.Name) and norm(s.value) in FLAG_FORMS]
+    flag_name = flag[0].targets[0].id if len(flag) == 1 else "setup_linear_solver"
+    if len(flag) == 1 and sum(1 for s in ast.walk(ls.node) if isinstance(s, ast.Name) and isinstance(s.ctx, ast.Store) and s.id == flag_name) != 1:
+        flag = []
     for f_lit in acc_f:
         lb = branch_body(ls.node, fa, f_lit)
         if lb is None:
@@ -336,7 +358,7 @@ def rule_d(ctx, sa, fa, ta, acc_f, acc_t, setup, ls):
             d0 = CallDA(sa)
             if CallDA(sa).block(setup.node.body, set(), vocab) is None or (d0.block(ls.node.body, set(ls.params), vocab) is None and not d0.returns):
                 continue
-            blocks = [st for st in ast.walk(ast.Module(body=lb, type_ignores=[])) if isinstance(st, ast.If) and norm(st.test) == "setup_linear_solver"]
+            blocks = [st for st in ast.walk(ast.Module(body=lb, type_ignores=[])) if isinstance(st, ast.If) and norm(st.test) == flag_name]
             n += 1
             ctx.instance(R)
             if len(blocks) != 1:
@@ -348,9 +370,7 @@ def rule_d(ctx, sa, fa, ta, acc_f, acc_t, setup, ls):
             ctx.ob(R, ls.qname, f"({f_lit}, {t_lit}): a fresh set-up binds linear_solver and solver_options", {"@linear_solver", "@solver_options"} <= got,
                    f"definitely bound: {sorted(got)}; calls {da.calls}", blocks[0])
     ctx.floor(R, 4)
-    flag = [s for s in ast.walk(ls.node) if isinstance(s, ast.Assign) and norm(s.targets[0]) == "setup_linear_solver"]
-    ctx.ob(R, ls.qname, "set-up is skipped only when reuse is requested and a solver exists", len(flag) == 1 and norm(flag[0].value) in
-           ("not reuse_solver or not hasattr(self, 'linear_solver')", "not (reuse_solver and hasattr(self, 'linear_solver'))"), norm(flag[0].value) if flag else "", ls.node)
+    ctx.ob(R, ls.qname, "set-up is skipped only when reuse is requested and a solver exists (flag assigned once)", len(flag) == 1, norm(flag[0].value) if flag else "", ls.node)
 
 
 def run(ctx):
